@@ -10,7 +10,9 @@ rightmost path cut short), and deliberately so: the real parser does yield parti
 short is followed by a sibling (`<start> ::= <b> <c> | "x" <c> "z"; <b> ::= "x" "y"; <c> ::= "" "q"` on "x" yields
 `<start>(<b>("x"), <c>(""))`: a state advanced over the unfinished `<b>` is advanced again, by a state of the last
 column that starts there) — `findings/OBS-C04-prefix-sibling-after-unfinished`, theorem
-`C04_prefix_rightmost_path_only_is_false_witness`; the stronger statement is false of the code.
+`C04_prefix_rightmost_path_only_is_false_witness`; the stronger statement is false of the code WITHOUT
+`ParseState.cut_short` (`PCfg.cutShort = false`).  For the source with it the strong form `PreS` is proved in
+`Proofs/EarleyPrefixStrong.lean`; this file holds for both values (the skipped iterations of `complete` add nothing).
 
 `GoodP` is the chart invariant of `Proofs/C04Chart.lean` in the same continuation form with `PreL` in place of `DerL`
 (the proofs are those of `C04Chart`, line by line; no finishedness is needed any more: a state completed early is
@@ -532,10 +534,10 @@ theorem mem_newKids {seen kids : List PT} {pt : PT} (h : pt ∈ newKids seen kid
       · rw [h]; exact List.mem_cons_self
       · exact List.mem_cons_of_mem _ (ih h)
 
-theorem advanceP_shape (p : Policy) (L : Nat) (t s : PSt) {x : NT} {a r : Option String}
+theorem advanceP_shape (cs : Bool) (p : Policy) (L : Nat) (t s : PSt) {x : NT} {a r : Option String}
     (hy : s.item.sym? = some (.n x a r)) :
-    (advanceP p L t s).item = s.item.next ∧
-    (advanceP p L t s).kids = s.kids ++ (if t.item.lhs.explicit then [PT.node t.item.lhs a r t.kids] else t.kids) := by
+    (advanceP cs p L t s).item = s.item.next ∧
+    (advanceP cs p L t s).kids = s.kids ++ (if t.item.lhs.explicit then [PT.node t.item.lhs a r t.kids] else t.kids) := by
   refine ⟨rfl, ?_⟩
   unfold advanceP
   simp only [hy]
@@ -561,6 +563,13 @@ theorem sinvP_stepB (pc : PCfg) (hs : SaneS pc.c) (pm : PM) (hph : pm.phaseB = t
     split
     · exact ⟨hA _ hph, fun _ => hold, hi.mout, hi.incs, hi.last, hi.ldots, (by intro t' j' h; cases h), hi.out, hi.pos⟩
     · rename_i s hsome
+      have hfr' : ∀ t' j', some (t, j + 1) = some (t', j') → DerB pc t' := by
+        intro t' j' h
+        simp only [Option.some.injEq, Prod.mk.injEq] at h
+        rw [← h.1]; exact htd
+      split
+      · -- `if s.cut_short: continue`
+        exact ⟨hA _ hph, fun _ => hold, hi.mout, hi.incs, hi.last, hi.ldots, hfr', hi.out, hi.pos⟩
       have hsmem : s ∈ listOf pm pc.L t := List.mem_of_getElem? hsome
       -- the advanced state is good in the origin column of `t`
       have hsg : GoodIK pc s.item s.kids t.item.origin ∧ s.item.dotNT? = some t.item.lhs := by
@@ -574,17 +583,13 @@ theorem sinvP_stepB (pc : PCfg) (hs : SaneS pc.c) (pm : PM) (hph : pm.phaseB = t
           obtain ⟨s0, hs0, rfl⟩ := List.mem_map.1 hsmem
           exact ⟨hold _ _ hp (mem_findDot hs0), findDot_dotNT? hs0⟩
       obtain ⟨a, r, hy⟩ := dotNT?_n hsg.2
-      obtain ⟨h1, h2⟩ := advanceP_shape pc.c.policy pc.L t s hy
-      have hnewG : GoodB pc (advanceP pc.c.policy pc.L t s) := by
+      obtain ⟨h1, h2⟩ := advanceP_shape pc.cutShort pc.c.policy pc.L t s hy
+      have hnewG : GoodB pc (advanceP pc.cutShort pc.c.policy pc.L t s) := by
         unfold GoodB
         rw [h1, h2]
         exact goodIK_next hsg.1 hy (completed_step htd)
-      have hnewD : DerB pc (advanceP pc.c.policy pc.L t s) := der_of_good hnewG
-      have hfr' : ∀ t' j', some (t, j + 1) = some (t', j') → DerB pc t' := by
-        intro t' j' h
-        simp only [Option.some.injEq, Prod.mk.injEq] at h
-        rw [← h.1]; exact htd
-      rcases addLast_cases pc.c.policy pm (advanceP pc.c.policy pc.L t s) with he | ⟨_, he | he⟩
+      have hnewD : DerB pc (advanceP pc.cutShort pc.c.policy pc.L t s) := der_of_good hnewG
+      rcases addLast_cases pc.c.policy pm (advanceP pc.cutShort pc.c.policy pc.L t s) with he | ⟨_, he | he⟩
       · simp only [PRes.mach]
         rw [he]
         exact ⟨hA _ hph, fun _ => hold, hi.mout, hi.incs, hi.last, hi.ldots, hfr', hi.out, hi.pos⟩
@@ -841,16 +846,16 @@ theorem preL_tiles (G : Grammar) (cap : Option Nat) (start : String) (inp : Inpu
 /-- **what a prefix parse of the model yields**: every tree is the collapsed node of the start symbol over a prefix of
     an expansion of one of its rules in the compiled table (and so on below: `PreL`), spanning all columns; with a
     typed grammar its leaves tile the whole input, the last one possibly a partial match -/
-theorem prefix_parse_sound (G : Grammar) (v : Variant) (pi : PInput) (start : String)
+theorem prefix_parse_sound (G : Grammar) (v : Variant) (cs : Bool) (pi : PInput) (start : String)
     (pred : Nat → NT → List (List ESym)) (R : RegexOracle)
     (hpred : ∀ k x rhs, rhs ∈ pred k x → (x, rhs) ∈ compile G v.cap)
     (hty : G.typed pi.inp.isBytes = true) (ho : OracleOk pi.inp R) (hc : CellsOk pi.inp)
-    (fuel : Nat) (ts : List Tree) (h : parsePrefix (mkPCfg G v pi start pred) fuel = some (.ok ts)) :
+    (fuel : Nat) (ts : List Tree) (h : parsePrefix (mkPCfg G v cs pi start pred) fuel = some (.ok ts)) :
     ∀ t ∈ ts, ∃ kids rhs, t = Tree.mk (.nt start) none none (collapseL kids) ∧ (NT.user start, rhs) ∈ compile G v.cap ∧
       PreL (tableOf G v.cap start) (scanV v pi.inp) (iscanV v pi) rhs kids 0 (8 * pi.inp.cells.length) ∧
       TilesLoose pi.inp t.leaves 0 (8 * pi.inp.cells.length) := by
   intro t ht
-  let pc := mkPCfg G v pi start pred
+  let pc := mkPCfg G v cs pi start pred
   have hs : SaneS pc.c := saneS_of_rules pc.c G v.cap rfl hpred
   have hpos : 0 < pc.c.ncols := by
     show 0 < 8 * pi.inp.cells.length + 1
@@ -861,10 +866,10 @@ theorem prefix_parse_sound (G : Grammar) (v : Variant) (pi : PInput) (start : St
   unfold parsePrefix at h
   have hsound := prefix_chart_sound pc hs hpos fuel
   cases hrun : runP pc fuel (PM.init pc) with
-  | next pm => rw [show runP (mkPCfg G v pi start pred) fuel (PM.init (mkPCfg G v pi start pred)) = _ from hrun] at h; cases h
-  | raised pm => rw [show runP (mkPCfg G v pi start pred) fuel (PM.init (mkPCfg G v pi start pred)) = _ from hrun] at h; cases h
+  | next pm => rw [show runP (mkPCfg G v cs pi start pred) fuel (PM.init (mkPCfg G v cs pi start pred)) = _ from hrun] at h; cases h
+  | raised pm => rw [show runP (mkPCfg G v cs pi start pred) fuel (PM.init (mkPCfg G v cs pi start pred)) = _ from hrun] at h; cases h
   | done pm =>
-    rw [show runP (mkPCfg G v pi start pred) fuel (PM.init (mkPCfg G v pi start pred)) = _ from hrun] at h
+    rw [show runP (mkPCfg G v cs pi start pred) fuel (PM.init (mkPCfg G v cs pi start pred)) = _ from hrun] at h
     simp only [Option.some.injEq, Except.ok.injEq] at h
     subst h
     rw [hrun] at hsound
